@@ -48,6 +48,22 @@ CHECKS = {
              "chunked header map, absent codec key) are read by reader and block_reader whose blocks must tile the file; the "
              "Java fixtures are read by both sides; is_avro is compared with the magic predicate on byte strings and paths.",
         ref="DESIGN.md §4 C05"),
+    "C06": dict(
+        cat="fault_enumeration", tech="runtime monitoring with fault injection: every cut offset and every sync-marker alteration of each corpus file, prefix oracle",
+        text="For each file of a sampled corpus (all codecs, 0-12 blocks, >=64-record blocks, zero-byte records, empty blocks; "
+             "written by fastavro and by the independent writer) the fault space is enumerated completely: the file cut at every "
+             "byte offset and read with reader/block_reader, each block's trailing marker altered 18 ways, every proper prefix of "
+             "a schemaless encoding. Oracle: yielded records are a structural prefix of the written ones; normal end iff the cut "
+             "is a block boundary known from the independent parser; alterations raise.",
+        ref="DESIGN.md §4 C06"),
+    "C07": dict(
+        cat="exploration", tech="runtime monitoring: operation histories checked against an executable sequential model (durable+pending) + icontract class invariant on Writer",
+        text="Thousands of short random histories over {new, write, failing write at 7 positions, flush, write_block from donor "
+             "files, abandon, reopen-append with foreign schema/codec/metadata/marker, writer() in append mode}; unique ids make "
+             "loss/duplication/reorder distinguishable; after every flush the stream is parsed by the independent parser and by "
+             "fastavro.reader and compared with the model; header bytes must stay frozen. The icontract invariant is auxiliary "
+             "(pinpoints the first corrupting step), the verdict rests on the read-back.",
+        ref="DESIGN.md §4 C07"),
 }
 
 NOT_YET = "check not built yet in this session (see DESIGN.md §8 build order)"
